@@ -20,8 +20,18 @@ from .prog import AnalysisIncomplete
 LOGGING = ("err_msg", "err_msg_system", "__assert_fail", "printf", "fprintf")
 
 
+class _Fork(Exception):
+    def __init__(self, node, n):
+        self.node, self.n = node, n
+
+
+class _Infeasible(Exception):
+    pass
+
+
 class Path:
     def __init__(self):
+        self.choice = {}
         self.env = {}
         self.atoms = {}
         self.val = {}
@@ -79,6 +89,36 @@ class _Ev:
         self.fn = fn
         self.P = P
         self.ptr = {}       # rendering of a pointer-typed sum -> its pointer operand (a one-atom polynomial)
+
+    def callee_paths(self, cal, args):
+        P = self.P
+        if P is None or getattr(self, "depth", 0) >= 2:
+            return None
+        from .prog import _anchors
+        A = _anchors()
+        if A is None:
+            return None
+        known = A.get("_names")
+        if known is None:
+            known = set(k.split(":", 1)[1] for k in A["functions"])
+            A["_names"] = known
+        if cal in known:
+            return None
+        cands = [g for g in P.fn_index.get(cal, []) if g.unit == self.fn.unit]
+        if len(cands) != 1 or len(cands[0].params) != len(args):
+            return None
+        key = (cal, tuple(args))
+        cache = self.__dict__.setdefault("_cpaths", {})
+        if key not in cache:
+            g = cands[0]
+            try:
+                init = {}
+                for prm, a_ in zip(g.params, args):
+                    init[prm[0]] = self._argvals.get(a_, lin.p_atom(a_))
+                cache[key] = run_paths(g, P, limit=64, init_env=init, depth=getattr(self, "depth", 0) + 1, ptr=self.ptr)
+            except AnalysisIncomplete:
+                cache[key] = None
+        return cache[key]
 
     def split_ptr(self, v):
         """(base, index) of a pointer value `base + index`, or None"""
@@ -285,8 +325,29 @@ class _Ev:
                     self.ev(p, c)
             return {}
         if k == "Call":
-            args = [lin.p_str(self.ev(p, a)) for a in nd["ch"][1:]]
+            argv = [self.ev(p, a) for a in nd["ch"][1:]]
+            args = [lin.p_str(a) for a in argv]
+            self._argvals = dict(zip(args, argv))
             cal = nd.get("callee")
+            sub = self.callee_paths(cal, args) if cal else None
+            if sub:
+                # a helper that did not exist when the rules were confirmed and could not be presented at its
+                # call (it sits in a loop condition or under && / ||): the caller's path goes through each
+                # of the helper's paths in turn
+                if j not in p.choice:
+                    raise _Fork(j, len(sub))
+                cp = sub[p.choice[j]]
+                for key, pol in cp.atoms.items():
+                    if p.atoms.get(key, pol) != pol:
+                        raise _Infeasible()
+                    p.atoms[key] = pol
+                p.events.extend(cp.events)
+                p.calls.extend(cp.calls)
+                for pth, v_ in cp.env.items():
+                    if any(c_ in pth for c_ in ("->", "[", "*", ".")):
+                        p.env[pth] = v_
+                p.stores.extend(x_ for x_ in cp.stores if any(c_ in x_[0] for c_ in ("->", "[", "*", ".")))
+                return cp.ret if cp.ret is not None else {}
             if not cal:
                 # a call through a pointer: the function it holds on this path, if known
                 cv_ = lin.p_str(self.ev(p, nd["ch"][0]))
@@ -383,11 +444,15 @@ def loop_paths(fn, loop, P=None, limit=4096):
     return run_paths(fn, P, limit, start=body, stops={h: "next", after: "break"})
 
 
-def run_paths(fn, P=None, limit=4096, start=None, stops=None):
+def run_paths(fn, P=None, limit=4096, start=None, stops=None, init_env=None, depth=0, ptr=None):
     """all feasible acyclic entry->exit paths of a loop-free function (or of the region from block
     `start` to the blocks in `stops`, which are not executed; each path gets `.end`)"""
     cfg = fn.cfg
     ev = _Ev(fn, P)
+    ev.depth = depth
+    ev._argvals = {}
+    if ptr is not None:
+        ev.ptr = ptr            # what the caller knows about pointer sums holds in the helper too
     out = []
     count = [0]
     stops = stops or {}
@@ -477,6 +542,7 @@ def run_paths(fn, P=None, limit=4096, start=None, stops=None):
         q.events = list(p.events)
         q.end = p.end
         q.epoch = p.epoch
+        q.choice = dict(p.choice)
         return q
 
     def go(p, b):
@@ -523,8 +589,21 @@ def run_paths(fn, P=None, limit=4096, start=None, stops=None):
                     p.events.append(("branch", key, kpol, c))
                 go(p, d0)
                 return
+        cont(p, b)
+
+    def cont(p, b):
+        p0 = clone(p)
         p.blocks.append(b)
-        step(p, b)
+        try:
+            step(p, b)
+        except _Fork as fk:
+            for k_ in range(fk.n):
+                q = clone(p0)
+                q.choice[fk.node] = k_
+                cont(q, b)
+            return
+        except _Infeasible:
+            return
         if b == cfg.exit:
             p.end = "exit"
             out.append(p)
@@ -558,7 +637,10 @@ def run_paths(fn, P=None, limit=4096, start=None, stops=None):
             seen.add(s)
             go(clone(p) if len(set(nxt)) > 1 else p, s)
 
-    go(Path(), cfg.entry if start is None else start)
+    p_init = Path()
+    if init_env:
+        p_init.env.update(init_env)
+    go(p_init, cfg.entry if start is None else start)
     return out
 
 
